@@ -24,6 +24,9 @@ package internal
 //@   prop C03, C01
 //@   arith bv
 //@   requires slot != nil && (flag == PollerReadEvent || flag == PollerWriteEvent)
+//@   // first interest of the slot: add; further ones: modify (the kernel registration follows the mask)
+//@   assert call poller).add: [C03 kernel-in-step] old(slot.Events) == 0
+//@   assert call poller).modify: [C03 kernel-in-step] old(slot.Events) != 0
 //@   ensures [armed] result == nil ==> armed(slot, flag) && slot.Events == old(slot.Events) | flag
 //@   ensures [count] result == nil ==> p.pending == old(p.pending) + (old(armed(slot, flag)) ? 0 : 1)
 //@   // a registration that fails is not counted and leaves no interest behind
@@ -49,6 +52,9 @@ package internal
 //@ func (*poller).DelRead
 //@   prop C03, C01
 //@   requires slot != nil
+//@   // the kernel registration follows the mask: modified while an interest remains, removed with the last one
+//@   assert call poller).modify: [C03 kernel-in-step] slot.Events != 0
+//@   assert call poller).del: [C03 kernel-in-step] slot.Events == 0
 //@   // whatever epoll_ctl answers, the interest is gone and no longer counted
 //@   ensures [cleared] slot.Events == old(slot.Events) &^ PollerReadEvent
 //@   ensures [count] p.pending == old(p.pending) - (old(armed(slot, PollerReadEvent)) ? 1 : 0)
@@ -57,6 +63,9 @@ package internal
 //@ func (*poller).DelWrite
 //@   prop C03, C01
 //@   requires slot != nil
+//@   // the kernel registration follows the mask: modified while an interest remains, removed with the last one
+//@   assert call poller).modify: [C03 kernel-in-step] slot.Events != 0
+//@   assert call poller).del: [C03 kernel-in-step] slot.Events == 0
 //@   ensures [cleared] slot.Events == old(slot.Events) &^ PollerWriteEvent
 //@   ensures [count] p.pending == old(p.pending) - (old(armed(slot, PollerWriteEvent)) ? 1 : 0)
 //@   ensures [quiet] !old(armed(slot, PollerWriteEvent)) ==> result == nil
